@@ -43,9 +43,10 @@ type writerOpts struct {
 	bytesWriter bool
 	initClass   int // bytes writer: 0 nil, 1 empty with cap, 2 partial, 3 full
 	initLen     int
-	failAt      int // sink fails at this Write call (1-based), 0 never
-	failMode    int // what the failing Write reports (see doubles.Sink.FailMode)
-	failErr     int // index into doubles.SinkErrors
+	failAt      int  // sink fails at this Write call (1-based), 0 never
+	failMode    int  // what the failing Write reports (see doubles.Sink.FailMode)
+	failErr     int  // index into doubles.SinkErrors
+	failOnce    bool // the sink recovers after its one failure (the writer's error must stick all the same)
 	retain      bool
 	cotenant    bool
 }
@@ -93,7 +94,7 @@ func runWriterHistory(cs *drv.Case, ops []wOp, o writerOpts) (nontrivial bool) {
 func runWriterHistoryInner(cs *drv.Case, ops []wOp, o writerOpts) bool {
 	var w bufiox.Writer
 	sinkErr := doubles.SinkErrors[o.failErr%len(doubles.SinkErrors)]
-	sink := &doubles.Sink{FailAt: o.failAt, Err: sinkErr, FailMode: o.failMode}
+	sink := &doubles.Sink{FailAt: o.failAt, Err: sinkErr, FailMode: o.failMode, FailOnce: o.failOnce}
 	var target []byte
 	var init *san.Canary
 	var initCopy []byte
@@ -401,6 +402,9 @@ func runWriterHistoryInner(cs *drv.Case, ops []wOp, o writerOpts) bool {
 				if sinkFails {
 					sawFail = true
 					cs.C.Obs("sink failures injected", 1)
+					if o.failOnce {
+						cs.C.Obs("sink failures injected into a sink that recovers afterwards", 1)
+					}
 					if err == nil {
 						fail("writer-sink-error-lost", i, "the sink failed but Flush returned nil")
 						return true
